@@ -88,6 +88,44 @@ PROPS = {
                  "the strace traces (path classes), not proved", "frontends are covered by C04's harness"],
         assumptions=["no symlinks inside the base directory"],
     ),
+    "C06": dict(
+        modules=["Whawty.Props.C06"],
+        suites=[("overlay", "v06")],
+        level_text="The eight handlers are modelled as authorize (gate logic) + perform (store call) over an abstract "
+                   "store and the ideal-AEAD session factory; refused_changes_nothing, mgmt_requires_admin_session, "
+                   "update_requires, token_only_after_auth and history_closure are Lean theorems. The real mux "
+                   "(newWebHandler on a real agent and store directory) is driven in-process over the endpoint x "
+                   "credential x target x body-shape matrix and random sequences; every response and post-state is "
+                   "compared with the model.",
+        rule="7 API endpoints x 13 credential kinds (none, garbage, not base64, no colon, short nonce, expired, future, "
+             "bit-flipped, other instance, user session, admin session, admin-at-login-then-demoted, forged flag) x 8 "
+             "targets (self, other user, admin, non-existent, invalid names, empty) + 19 raw body shapes per endpoint "
+             "(not JSON, wrong types, extra / duplicate / case-variant keys, empty and missing fields, both credentials) "
+             "+ 150 (1500) random requests; expired/future tokens are sealed with the factory's own AEAD.",
+        trusted=["encoding/json and net/http are transports: the model receives the decoded request fields", T_CRYPTO,
+                 "AES-GCM as ideal AEAD (C07)"],
+        partial=["the running binary over real sockets is not exercised in this tier"],
+    ),
+    "C07": dict(
+        modules=["Whawty.Props.C07"],
+        suites=[("overlay", "v07")],
+        level_text="The factory is modelled over an IDEAL AEAD (Open succeeds exactly on pairs it sealed): "
+                   "accept_iff_issued (accept <=> the decoded halves are exactly a sealed pair whose plaintext parses "
+                   "strictly and whose age is within [0, lifetime]; the returned identity is the sealed one), "
+                   "plaintext parse strictness, text-layer theorem, instance binding. The real webSessionFactory is "
+                   "driven in-package: every single-bit mutation, character mutations, truncations, splices, another "
+                   "instance's tokens, forged-but-authentic plaintexts (sealed with the factory's own AEAD) of all ages.",
+        rule="3 (thorough: 10) factory pairs x 12 (60) issued tokens + 20 authentic tokens with chosen plaintexts (ages "
+             "lifetime-+4 s, future, malformed flags/time stamps, colons in the user name); per token: as issued, every "
+             "bit flip of nonce||ciphertext (sampled after the second token in quick), character mutations of the text, "
+             "prefix/suffix truncations, extensions, nonce lengths 0/11/13, other-instance tokens and cross-instance "
+             "splices; all pairwise nonce/ciphertext splices; garbage; 2000 (20000) further issuances for nonce "
+             "distinctness.",
+        trusted=["AES-GCM behaves as an ideal AEAD (unforgeability) and crypto/rand never repeats a 96-bit nonce: "
+                 "hypotheses of the theorems, observed only", T_GO + ": encoding/base64 (modelled), strconv (modelled)"],
+        partial=["nonce distinctness is a probabilistic fact about crypto/rand: observed over the run"],
+        assumptions=["token ages are generated at least 3 s away from the lifetime boundary (wall-clock granularity)"],
+    ),
     "C08": dict(
         modules=["Whawty.Props.C08"],
         suites=[("hdrv", "c08")],
@@ -363,7 +401,61 @@ def run_hdrv_pam(suite, tier, seed, workdir, filt):
     yield from run_hdrv(suite, tier, seed, workdir, filt, pam=True)
 
 
-RUNNERS = {"hdrv": run_hdrv, "hdrv+pam": run_hdrv_pam}
+def build_agent_test(workdir):
+    """`go test -c -overlay`: the test files of harness/overlay are compiled INTO package main of
+    /repo/cmd/whawty-auth (working tree) without touching /repo."""
+    import json, glob
+    ov = {"Replace": {}}
+    for f in sorted(glob.glob(os.path.join(HARN, "overlay", "*_test.go"))):
+        ov["Replace"][os.path.join(REPO, "cmd", "whawty-auth", os.path.basename(f))] = f
+    ovf = os.path.join(workdir, "overlay.json")
+    json.dump(ov, open(ovf, "w"))
+    out = os.path.join(workdir, "agent.test")
+    r = subprocess.run(["go", "test", "-c", "-vet=off", "-overlay", ovf, "-o", out, "./cmd/whawty-auth"], cwd=REPO, env=GOENV,
+                       stdout=subprocess.PIPE, stderr=subprocess.STDOUT, text=True)
+    if r.returncode != 0 or not os.path.exists(out):
+        raise HarnessError("go test -c -overlay of cmd/whawty-auth failed:\n" + r.stdout[-3000:])
+    return out
+
+
+def run_overlay(suite, tier, seed, workdir, filt, nshards=None):
+    exe = build_agent_test(workdir)
+    n = nshards or NPROC
+
+    def shard(i):
+        sw = os.path.join(workdir, "%s-shard%d" % (suite, i))
+        os.makedirs(sw, exist_ok=True)
+        lp = os.path.join(workdir, "%s-%d.lines" % (suite, i))
+        op = os.path.join(workdir, "%s-%d.out" % (suite, i))
+        env = dict(GOENV, VERIF_SUITE=suite, VERIF_SEED=str(seed), VERIF_TIER=tier, VERIF_SHARD=str(i),
+                   VERIF_NSHARDS=str(n), VERIF_WORK=sw, VERIF_OUT=lp)
+        env.pop("WHAWTY_AUTH_DEBUG", None)
+        r = subprocess.run([exe, "-test.run", "^TestVerif$", "-test.count=1", "-test.timeout=30m"], cwd=sw, env=env,
+                           stdout=subprocess.PIPE, stderr=subprocess.STDOUT, text=True)
+        lines = []
+        if os.path.exists(lp):
+            lines = [l for l in open(lp, errors="replace").read().split("\n") if l.strip()]
+        if r.returncode != 0:
+            # a panic / deadlock / test failure in the real code under the harness is an observation
+            tail = " | ".join(r.stdout.strip().split("\n")[-12:])[:1500].replace(" => ", " -> ")
+            lines.append("law.%s.agent_harness_completes shard=%d exit=%d %s => f" % (suite, i, r.returncode, tail))
+        if filt is not None:
+            lines = [l for l in lines if l in filt_set]
+        open(lp, "w").write("\n".join(lines) + ("\n" if lines else ""))
+        drive(lp, op)
+        shutil.rmtree(sw, ignore_errors=True)
+        return lp, op
+
+    filt_set = set(filt or [])
+    with cf.ThreadPoolExecutor(max_workers=n) as ex:
+        res = list(ex.map(shard, range(n)))
+    for lp, op in res:
+        yield from zip_results(lp, op)
+        os.remove(lp)
+        os.remove(op)
+
+
+RUNNERS = {"hdrv": run_hdrv, "hdrv+pam": run_hdrv_pam, "overlay": run_overlay}
 
 
 def run_suite(prop, tier, seed, workdir, filt=None):
